@@ -126,8 +126,25 @@ class BorrowedResources(BaseResources[T]):
         # do not postpone if we can resume immediately
         if not self._resources._available >= self._debits:
             await (self._resources._available >= self._debits)
-        await self._resources.__remove_resources__(self._debits)
-        await self.__insert_resources__(self._debits)
+        # Resources change hands *before* each of these steps suspends. If we are
+        # interrupted there, __aexit__ never runs: dispatch the give-back instead.
+        try:
+            await self._resources.__remove_resources__(self._debits)
+        except BaseException:
+            __USIM_STATE__.loop.schedule(
+                self._resources.__insert_resources__(self._debits)
+            )
+            raise
+        try:
+            await self.__insert_resources__(self._debits)
+        except BaseException:
+            __USIM_STATE__.loop.schedule(
+                self.__remove_resources__(self._debits)
+            )
+            __USIM_STATE__.loop.schedule(
+                self._resources.__insert_resources__(self._debits)
+            )
+            raise
         return self
 
     async def __aexit__(self, exc_type, exc_val, exc_tb):
@@ -141,7 +158,14 @@ class BorrowedResources(BaseResources[T]):
                 self._resources.__insert_resources__(self._debits)
             )
         else:
-            await self.__remove_resources__(self._debits)
+            try:
+                await self.__remove_resources__(self._debits)
+            except BaseException:
+                # interrupted while giving back: finish giving back eventually
+                __USIM_STATE__.loop.schedule(
+                    self._resources.__insert_resources__(self._debits)
+                )
+                raise
             await self._resources.__insert_resources__(self._debits)
             # TODO: forcefully kill off anyone holding our resources?
 
